@@ -20,6 +20,12 @@ import GridVerif.Gen.MolGrid
   (`MolGrid.init`, `MolGrid.getAtomicGrid`, `MolGrid.getItem`) on the same line format. The harness
   compares both with the implementation.
 
+  Round 3: `C07.interp <nargs> <deriv> <ds> <ord> <f vec> <pts mat> <grid spec>` runs the generated
+  `interpolate` / `interpolate_low` on the synthetic atomic interpolation `synthInterp`, `C07.hinterp` the
+  hand model; `C07.defaults` prints the generated signature defaults; `C07.defaultRgridRow z angstrom bohr`
+  runs the generated `_generate_default_rgrid` on recording components, `C07.defaultRgridLit z` prints a
+  row of the generated table (values at `Float` and the exact decimals).
+
   Fan-out ops work on integer identifiers (which radial grid / preset / sector list an atom
   receives); the abstract atomic-grid constructor records its arguments in the `points` of the
   grid it returns, the driver prints them atom by atom.
@@ -147,6 +153,60 @@ def fanoutAnswer (full : Py (MolGrid Nat Nat)) (pre : Bool) (n : Nat)
       else []
     errTag e ++ " " ++ toString gs.length ++ " " ++ sNats (gs.flatMap AtGrid.points)
 
+
+/-! ### round 3: interpolate, signature defaults, default radial grid -/
+
+/-- The synthetic `AtomGrid.interpolate` of the correspondence (the same function is a Python class in
+harness/props/c07.py): with `c = Σ_j vals[j]·weights[j]` (left to right) and
+`s = c·(1 + deriv + 2·deriv_spherical + 4·only_radial_derivs)`,
+* an atom that was handed exactly one value answers the row `[s, s, s]` (shape `(3,)`) when
+  `deriv_spherical`, else `[s]` (shape `(1,)`) — exercises the broadcasting of `+=`;
+* every other atom answers `s + ⟨p, center⟩·(t+1)` per point `p` and column `t < 3` (shape `(M, 3)`)
+  when `deriv_spherical`, else `s + ⟨p, center⟩` (shape `(M,)`);
+* `deriv > 3` raises `ValueError`. -/
+def synthInterp (g : AtGrid Pt Float) (vals : List Float) : Py (Interp (List Pt) Float) :=
+  pure fun pts d ds ord =>
+    if d > 3 then throw .valueError else
+    let c := (List.zipWith (· * ·) vals g.weights).foldl (· + ·) 0.0
+    let s := c * (1.0 + Float.ofInt d + (if ds then 2.0 else 0.0) + (if ord then 4.0 else 0.0))
+    let dot (p : Pt) : Float := (List.zipWith (· * ·) p g.center).foldl (· + ·) 0.0
+    if vals.length == 1 then
+      pure (if ds then ⟨[3], [s, s, s]⟩ else ⟨[1], [s]⟩)
+    else if ds then
+      pure ⟨[pts.length, 3], pts.flatMap fun p => [s + dot p * 1.0, s + dot p * 2.0, s + dot p * 3.0]⟩
+    else pure ⟨[pts.length], pts.map fun p => s + dot p⟩
+
+def sArr (a : NdArr Float) : String := s!"ok {sNats a.shape} {sFloats a.data}"
+
+/-- `mg.interpolate(f)(pts[, deriv[, deriv_spherical[, only_radial_derivs]]])` with `nargs` of the optional
+arguments given: `nargs = 3` calls the closure the generated `interpolate` hands back; fewer arguments go
+through the generated `interpolate_low` with its generated defaults (on the list of atomic interpolants
+the hand model builds). -/
+def runInterp (m : MolGrid Pt Float) (f : List Float) (pts : List Pt) (nargs : Nat) (d : Int) (ds ord : Bool) :
+    Py (NdArr Float) := do
+  let I ← Gen.MolGrid.interpolate synthInterp m f
+  match nargs with
+  | 3 => I pts d ds ord
+  | k => do
+    let gs ← (match m.atgrids with | some gs => pure gs | none => throw .valueError : Py (List (AtGrid Pt Float)))
+    let fa ← npMul1 f m.aimWeights
+    let fs ← allOk (fun i : Nat => do
+      let a ← pyGet m.indices (i : Int)
+      let b ← pyGet m.indices ((i : Int) + 1)
+      let g ← pyGet gs (i : Int)
+      synthInterp g (pySlice fa a b)) (List.range m.atcoords.length)
+    match k with
+    | 0 => Gen.MolGrid.interpolate_low fs pts
+    | 1 => Gen.MolGrid.interpolate_low fs pts d
+    | _ => Gen.MolGrid.interpolate_low fs pts d ds
+
+def pBool : String → Option Bool
+  | "0" => some false
+  | "1" => some true
+  | _ => none
+
+def sBool (b : Bool) : String := if b then "1" else "0"
+
 def handle : List String → Option String
   | "C07.init" :: rest => do
     let s ← pSpec rest
@@ -252,6 +312,39 @@ def handle : List String → Option String
             | .error e => .error e)
       | [] => none
     | [] => none
+  | "C07.interp" :: nargs :: d :: ds :: ord :: rest => do
+    let nargs ← pNat nargs
+    let d ← pInt d
+    let ds ← pBool ds
+    let ord ← pBool ord
+    let (f, r1) ← pVec pFloat rest
+    let (pts, r2) ← pMat pFloat r1
+    let s ← pSpec r2
+    if nargs > 3 then none else
+    pure (answer (do let m ← s.build; runInterp m f pts nargs d ds ord) sArr)
+  | "C07.hinterp" :: d :: ds :: ord :: rest => do
+    let d ← pInt d
+    let ds ← pBool ds
+    let ord ← pBool ord
+    let (f, r1) ← pVec pFloat rest
+    let (pts, r2) ← pMat pFloat r1
+    let s ← pSpec r2
+    pure (answer (do let m ← s.buildH; let I ← m.interpolate synthInterp f; I pts d ds ord) sArr)
+  | ["C07.defaults"] =>
+    pure (s!"ok preset {Gen.MolGrid.fromPreset_default_rotate} {sBool Gen.MolGrid.fromPreset_default_store} " ++
+      s!"size {Gen.MolGrid.fromSize_default_rotate} {sBool Gen.MolGrid.fromSize_default_store} " ++
+      s!"pruned {Gen.MolGrid.fromPruned_default_d_sectors} {Gen.MolGrid.fromPruned_default_rotate} " ++
+      s!"{sBool Gen.MolGrid.fromPruned_default_store}")
+  | ["C07.defaultRgridRow", z, ang, bohr] => do
+    let z ← pNat z
+    let ang ← pFloat ang
+    let bohr ← pFloat bohr
+    pure (answer (Gen.MolGrid.generate_default_rgrid (K := Float) ang bohr (fun n => pure n)
+        (fun a b g => pure (a, b, g)) z) fun r => s!"ok {sFloat r.1} {sFloat r.2.1} {r.2.2}")
+  | ["C07.defaultRgridLit", z] => do
+    let z ← pNat z
+    pure (answer (pyDictGet Gen.MolGrid.defaultRgridParams z) fun r =>
+      s!"ok {sFloat (Dec.val r.1)} {sFloat (Dec.val r.2.1)} {r.2.2} {r.1.mant} {r.1.scale} {r.2.1.mant} {r.2.1.scale}")
   | ["C07.defaultRgrid", z] => do
     let z ← pNat z
     pure (answer (defaultRgrid Gen.MolGrid.defaultRgridNpt id z) fun n => s!"ok {n}")
